@@ -173,6 +173,8 @@ def directed(ctx, only=None):
         ctx.count("directed:definition-matrix")
     if only in (None, "odd-names"):
         odd_names(ctx)
+    if only in (None, "posthoc-duplicates"):
+        posthoc_duplicates(ctx)
     # OLD.<unknown> -> AttributeError naming the attribute
     if only in (None, "old-unknown"):
         @icontract.snapshot(lambda x: x, name="known")
@@ -241,6 +243,49 @@ def odd_names(ctx):
             if got != want:
                 ctx.fail("odd-snapshot-name|%s" % name, {"directed": "odd-names"},
                          "%s: the postcondition must see OLD.%s == the captured value and the call return 1; got %r" % (label, name, got))
+
+
+def posthoc_duplicates(ctx):
+    """A snapshot added to a callable AFTER its class exists (Sub.m = snapshot(...)(Sub.m)) is checked against every
+    snapshot the callable already has - its own and the ones inherited through the meta-class: a duplicate name is
+    rejected with ValueError at that moment; a new name is accepted and captured."""
+    import icontract
+
+    for kind in ("method", "property getter"):
+        for where in ("inherited name", "own name", "fresh name"):
+            seen = []
+
+            def cap(tag):
+                def c(self):
+                    seen.append(tag)
+                    return tag
+                return c
+
+            base_f = icontract.snapshot(cap("base"), name="items")(icontract.ensure(lambda OLD: OLD.items == "base")(lambda self: 1))
+            sub_f = icontract.snapshot(cap("own"), name="mine")(icontract.ensure(lambda OLD: OLD.mine == "own")(lambda self: 2))
+            wrap = property if kind.startswith("property") else (lambda f: f)
+            try:
+                A = type(icontract.DBC)("A", (icontract.DBC,), {"f": wrap(base_f)})
+                Sub = type(icontract.DBC)("Sub", (A,), {"f": wrap(sub_f)})
+                target = Sub.__dict__["f"].fget if kind.startswith("property") else Sub.__dict__["f"]
+                name = {"inherited name": "items", "own name": "mine", "fresh name": "later"}[where]
+                try:
+                    icontract.snapshot(cap("later"), name=name)(target)
+                    got = "accepted"
+                except ValueError:
+                    got = "ValueError"
+                del seen[:]
+                r = Sub().f if kind.startswith("property") else Sub().f()
+                got = (got, r, sorted(seen))
+            except BaseException as e:  # noqa
+                got = ("failed", type(e).__name__, str(e)[:120])
+            want = ("accepted", 2, ["base", "later", "own"]) if where == "fresh name" else ("ValueError", 2, ["base", "own"])
+            label = "%s: a snapshot with %s added to the override after the class exists" % (kind, where)
+            ctx.case(["posthoc-duplicate", kind, where], True, sample={"directed": label, "outcome": str(got)[:100]})
+            ctx.count("directed:posthoc-duplicates")
+            if got != want:
+                ctx.fail("posthoc-duplicate|%s|%s" % (kind.split()[0], where.split()[0]), {"directed": "posthoc-duplicates"},
+                         "%s: expected %r, got %r" % (label, want, got))
 
 
 def _judge_directed(name):
